@@ -21,16 +21,16 @@ from .common import case, guarded, ordinal_instance, strict, rand_perm
 ID = "C18"
 RULE = ("approx (seed-dependent): exhaustive small sets (below); random / planted k-partitions (votes single-peaked on each of "
         "k hidden blocks, randomly interleaved) / planted + noise / reversal pairs / cyclic shifts, m <= 25, n <= 15, arbitrary "
-        "positive ids; axes through the verified checker at every size, reference optimum for m <= 8. "
+        "non-negative ids (id 0 in about half of the cases); axes through the verified checker at every size, reference optimum for m <= 8. "
         "brute force, every k in 1..m+1: m <= 5 exhaustive (below) + seed-dependent random/planted/cyclic (n <= 4, cyclic "
         "n <= m), m = 1 and m = 2 included, NO known finding applies there; m >= 6: a FIXED case set (constant seeds "
         "18000006 / 18000007, independent of VERIF_SEED, thorough contains quick): m = 6-8 (thorough 6-9), odd and even m - the "
         "open finding KF-C18-a is matched by the sha-256 of exactly the failing inputs of that set. "
         "non-trivial = reference optimum >= 2 axes")
-EXHAUSTIVE = {"quick": "both functions: all sets of 1-2 distinct strict orders over m<=3; brute force: every set of <= 3 strict "
+EXHAUSTIVE = {"quick": "both functions: all sets of 1-2 distinct strict orders over m<=3, with the ids 1..m and with the ids 0..m-1; brute force: every set of <= 3 strict "
                        "orders over m = 4 and m = 5 containing the identity ranking (= every profile of <= 3 orders up to "
                        "relabelling), every k in 1..m+1",
-              "thorough": "both functions: all sets of 1-3 distinct strict orders over m<=3; brute force: every set of <= 4 strict "
+              "thorough": "both functions: all sets of 1-3 distinct strict orders over m<=3, with the ids 1..m and with the ids 0..m-1; brute force: every set of <= 4 strict "
                           "orders over m = 4 and m = 5 containing the identity ranking (= every profile of <= 4 orders up to "
                           "relabelling), every k in 1..m+1"}
 TRUSTED = ["(R) not verified, compared with the verified reference min_partition on bounded inputs (m <= 8, thorough 9) and "
@@ -120,7 +120,13 @@ def distinct(rs):
 
 
 def rand_ids(rng, m):
-    return rng.sample(range(1, rng.choice([m + 1, 30, 1000, 10 ** 9])), m)
+    """arbitrary non-negative ids; id 0 (the samplers of preflibtools are 0-based) is present in about half of the cases"""
+    hi = rng.choice([m + 1, 30, 1000, 10 ** 9])
+    if rng.random() < 0.5:
+        ids = [0] + rng.sample(range(1, hi), m - 1)
+        rng.shuffle(ids)
+        return ids
+    return rng.sample(range(1, hi), m)
 
 
 def mixed_votes(rng, i, m, alts):
@@ -165,8 +171,8 @@ def det_bf_cases(tier):
     known_findings.json by the sha-256 of exactly these inputs (regenerate with  python -m props.c18_known)."""
     out = []
     rq = random.Random(DET_SEED_QUICK)
-    for i in range(1700):
-        m = 8 if i % 16 == 7 else rq.choice([6, 6, 7])
+    for i in range(13000):
+        m = 8 if i % 50 == 7 else rq.choice([6, 6, 7])
         alts = rand_ids(rq, m)
         votes, mults, style = mixed_votes(rq, i, m, alts)
         out.append(bf_case(rand_perm(rq, alts), votes, mults, style=style, det=1))
@@ -195,8 +201,8 @@ def generate(tier, seed):
         out.append(bf_case(alts, rankings, mults, **tags))
 
     # ---- exhaustive small (both functions)
-    for m in (1, 2, 3):
-        alts = list(range(1, m + 1))
+    for m, lo in ((1, 1), (2, 1), (3, 1), (1, 0), (2, 0), (3, 0)):       # ids 1..m and ids 0..m-1
+        alts = list(range(lo, m + lo))
         perms = list(itertools.permutations(alts))
         for k in range(1, min(len(perms), 3 if thorough else 2) + 1):
             for sub in itertools.combinations(perms, k):
@@ -214,6 +220,10 @@ def generate(tier, seed):
                 add_bf(alts, sub, exh=1)
                 if n <= 2 or (m == 4 and n == 3 and thorough):
                     add_approx(alts, sub, exh=1)
+                if n <= 2:                                   # the same profile with the ids 0..m-1
+                    sub0 = [[a - 1 for a in r] for r in sub]
+                    add_bf([a - 1 for a in alts], sub0, exh=1, zero=1)
+                    add_approx([a - 1 for a in alts], sub0, exh=1, zero=1)
 
     # ---- brute force, m <= 5: seed-dependent random / planted / cyclic, arbitrary ids, n <= 4 (cyclic: n <= m)
     nsmall = 1500 if not thorough else 12000
@@ -443,6 +453,8 @@ def stats(c, r, m):
         lab.append("with multiplicities")
     if len(rankings) == 1:
         lab.append("single order")
+    if 0 in alts:
+        lab.append("id 0 present")
     return lab
 
 
